@@ -72,17 +72,39 @@ def getOutcome (o : Json) : Except String Outcome := do
   | "value" => return .otherExc
   | _ => throw s!"bad outcome {k}"
 
+def getTok (j : Json) : Except String Tok := do
+  let t ← j.getObjValAs? String "t"
+  match t with
+  | "enter" => return .enter
+  | "exit" => return .exit
+  | "wire" => return .wire (← getRat j "gap") (← getRat j "service") (← getBool j "fails")
+  | _ => throw s!"bad token {t}"
+
+def raisesOutcome : Outcome → Bool
+  | .tuple _ _ => false
+  | .dict _ _ _ _ _ => false
+  | .other => false
+  | _ => true
+
+/-- `prog` (list of tokens) or, for a plain request, `pre` + `service` = one wire request in the executor's context -/
 def getReq (j : Json) : Except String Req := do
   let gen ← getRat j "gen"
-  let pre ← getRat j "pre"
-  let service ← getRat j "service"
   let post ← getRat j "post"
   let draw ← getRat j "draw"
   let out ← getOutcome (← getObj j "out")
   let rc ← getOptBool j "rc"
   let rp ← getOptRat j "rp"
   let sp ← getOptRat j "sp"
-  return { gen, pre, service, post, draw, out, rc, rp, sp }
+  let prog ← match j.getObjVal? "prog" with
+    | .ok (Json.arr ts) => ts.toList.mapM getTok
+    | _ => do
+      let pre ← getRat j "pre"
+      let service ← getRat j "service"
+      pure [Tok.wire pre service false]
+  if !balanced prog 0 then throw "out-of-domain: unbalanced request program"
+  if prog.any (fun t => match t with | .wire _ _ true => true | _ => false) && !raisesOutcome out then
+    throw "out-of-domain: failing wire request without an exception outcome"
+  return { gen, prog, post, draw, out, rc, rp, sp }
 
 def getMode (a : Json) : Except String (Rat → Rat) := do
   let m ← a.getObjValAs? String "mode"
@@ -102,6 +124,7 @@ def causeName : Cause → String
   | .unitMismatch => "unit-mismatch"
   | .other => "other"
   | .zeroDivision => "zero-division"
+  | .noTimestamps => "no-timestamps"
 
 def stopName : Stop → String
   | .loopDone => "loop-done"
@@ -136,6 +159,22 @@ def innerTag : Inner → String
   | .unthrottled => "unthrottled"
   | .det _ => "det"
   | .poi _ => "poi"
+
+def isWire : Tok → Bool
+  | .wire _ _ _ => true
+  | _ => false
+def isFail : Tok → Bool
+  | .wire _ _ true => true
+  | _ => false
+
+/-- shape of the request programs that were actually executed (the first `n` of the plan) -/
+def progTags (reqs : List Req) (n : Nat) : List String :=
+  let rs := reqs.take n
+  (if rs.any (fun q => q.prog.contains Tok.enter) then ["nested"] else [])
+  ++ (if rs.any (fun q => (q.prog.filter isWire).length > 1) then ["multi-wire"] else [])
+  ++ (if rs.any (fun q => match q.prog.filter isWire with | t :: _ => isFail t | [] => false) then ["fail-first-wire"] else [])
+  ++ (if rs.any (fun q => match q.prog.filter isWire with | _ :: ts => ts.any isFail | [] => false) then ["fail-later-wire"] else [])
+  ++ (if rs.any (fun q => (q.prog.filter isWire).isEmpty) then ["no-wire"] else [])
 
 def runTags (c : Cfg) (f : Final) (cap : Nat) : List String :=
   let o := f.out
@@ -214,6 +253,21 @@ def handle (op : String) (a : Json) : Except String Json := do
             outs := outs.push (ratStr cur)
         tags := [innerTag s.inner]
         return ok (Json.mkObj [("sched", Json.arr outs), ("rates", Json.arr rates)]) tags
+  | "sampler" =>
+    -- events: "eval" | "build" | {"call": id} | "drain"
+    let cap ← getNat a "cap"
+    let evsJ ← getArr a "events"
+    let evs ← evsJ.mapM (fun j => match j with
+      | Json.str "eval" => pure (SEv.evalPut (α := Nat))
+      | Json.str "build" => pure SEv.build
+      | Json.str "drain" => pure SEv.drain
+      | _ => do let i ← getNat j "call"; pure (SEv.call i))
+    let st := srun cap evs (SState.init Nat)
+    return ok (Json.mkObj [
+      ("batches", arr (st.batches.map (fun b => arr (b.map (fun i => toJson i))))),
+      ("queue", arr ((st.queues.getD st.cur []).map (fun i => toJson i))),
+      ("dropped", arr (st.dropped.map (fun i => toJson i)))])
+      ((if st.dropped.isEmpty then [] else ["dropped"]) ++ (if st.batches.any (fun b => !b.isEmpty) then ["drained"] else []))
   | "run" =>
     let r ← getMode a
     let task ← getObj a "task"
@@ -248,12 +302,12 @@ def handle (op : String) (a : Json) : Except String Json := do
         ("sched", arr (o.tuples.map (fun t => ratStr t.sched))),
         ("tuple_warmup", arr (o.tuples.map (fun t => toJson t.warmup))),
         ("tuple_pc", arr (o.tuples.map (fun t => optRat t.pc))),
-        ("wire", arr (o.wire.map (fun w => arr [ratStr w.1, ratStr w.2]))),
+        ("wire", arr (o.wire.map (fun g => arr (g.map (fun w => arr [ratStr w.1, ratStr w.2]))))),
         ("rates", arr (o.rates.map ratStr)),
         ("complete_set", toJson f.completeSet),
         ("end", ratStr o.endClock),
         ("ramp_wait", ratStr f.rampWait)]
-      return ok res (runTags c f cap)
+      return ok res (runTags c f cap ++ progTags reqs o.wire.length)
   | _ => throw s!"unknown op {op}"
 
 end Drivers.Exec
